@@ -50,7 +50,7 @@ type Property struct {
 // probe that never fires is visible in the evidence (probes_at_zero).
 var expectedProbes = map[string][]string{
 	"C01": {"program.nesting_depth_3", "program.jump_inside_nested_body", "program.options_end_a_body", "world.nodes_over_several_readers", "world.command_polled_while_pending", "world.hub_loop", "program.block_chain_6_to_12_deep", "world.size_outlier"},
-	"C03": {"world_with_failing_statement", "world_with_host_write", "storer_history", "storer_history_with_two_type_switches_on_one_name"},
+	"C03": {"world_with_failing_statement", "world_with_host_write", "storer_history", "storer_history_with_two_type_switches_on_one_name", "continued_after_failing_statement"},
 	"C06": {"fault_requiring_error", "fault_with_open_outcome"},
 	"C07": {"receiver.FRESH", "receiver.READY", "receiver.CHOOSING", "receiver.PENDING", "receiver.ENDED", "receiver.sibling_path", "receiver.restored_before", "two_receivers_of_one_snapshot"},
 	"C09": {"trace_with_error_texts"},
